@@ -225,6 +225,15 @@ class Kinds:
         ov = getattr(self, 'call_overrides', None)
         if ov and id(x) in ov:
             return ov[id(x)]
+        if env is not None:
+            # the call was inlined in the graph being analysed: what its
+            # return statements handed back on the paths that got here
+            try:
+                r = env('$ret:%d' % id(x))
+            except Exception:
+                r = None
+            if r is not None:
+                return r
         res = e.r.resolve_call(x, ctx)
         out = set()
         fn = x.func
@@ -410,6 +419,10 @@ class KindFlow:
             elif isinstance(a, ast.AnnAssign) and a.value is not None:
                 v = self.k.eval(a.value, n.ctx, lambda p: d.get(p), n.frame)
                 self._assign(d, a.target, v, n)
+            elif isinstance(a, ast.Return) and n.frame.call is not None \
+                    and n.frame is not self.g.entry.frame:
+                d['$ret:%d' % id(n.frame.call)] = self.k.eval(
+                    a.value, n.ctx, lambda p: d.get(p), n.frame)
             elif isinstance(a, ast.AugAssign):
                 p = path_of(a.target, n.frame)
                 if p is not None and p in d:
@@ -444,6 +457,9 @@ class KindFlow:
             fs = None if any(v == frozenset() for v in f.values()) \
                 else _freeze(f)
             return {'T': ts, 'F': fs, None: st, 'exc': st}
+        if k == 'call_enter':
+            d.pop('$ret:%d' % id(n.ast), None)
+            return {None: _freeze(d), 'exc': st}
         if k == 'bind':
             x = n.extra
             if x.get('is_self'):
